@@ -314,6 +314,25 @@ def P_apalache(name, module, inv, timeout=600, init=None, length=0):
     return run
 
 
+def P_tlaps(name, module, timeout=900):
+    """A theorem discharged by the TLA+ proof system (all obligations of the module must be proved): design level."""
+    def run(ctx):
+        t0 = time.time()
+        d = os.path.join(ctx.scratch, 'tlaps_' + name)
+        os.makedirs(d, exist_ok=True)
+        for f in os.listdir(ctx.specdir()):
+            if f.endswith('.tla'):
+                shutil.copy(os.path.join(ctx.specdir(), f), d)
+        p = subprocess.run(['timeout', str(timeout), 'tlapm', '--threads', '8', module + '.tla'], cwd=d, env=ctx.env, capture_output=True, text=True)
+        out = p.stdout + p.stderr
+        m = re.search(r'All (\d+) obligations proved', out)
+        if not m:
+            raise Broken('stage %s: tlapm did not prove every obligation of %s:\n%s' % (name, module, out[-1500:]))
+        ctx.cov['stages'].append({'stage': name, 'module': module, 'direction': 'TLAPS (tlapm), unbounded', 'obligations_proved': int(m.group(1)),
+                                  'wall_s': round(time.time() - t0, 1)})
+    return run
+
+
 def P(quick, thorough, rule, labels, extra_assume=()):
     return {'quick': quick, 'thorough': thorough, 'rule': PATCH_RULE % rule, 'exhaustive': True,
             'assumptions': PATCH_ASSUME + list(extra_assume),
@@ -550,14 +569,16 @@ PLANS = {
          AP('d1', [1, 2, 7, 10, 11], [1, 8, 9, 10, 11], V_ALL, [1, 2, 9], 1, respell=True, extra_opt='wsonly=1'),
          AP('d2', [10, 6], [1, 8, 9, 10], [1, 5, 8], [1, 5], 2, kinds=['copy', 'add', 'remove', 'replace'], respell=True,
             extra_opt='wsonly=1'),
-         P_apalache('acct0', 'CopyAcct', 'IndInv', init='Init', length=0), P_apalache('acct1', 'CopyAcct', 'IndInv', init='IndInit', length=1)],
+         P_apalache('acct0', 'CopyAcct', 'IndInv', init='Init', length=0), P_apalache('acct1', 'CopyAcct', 'IndInv', init='IndInit', length=1),
+         P_tlaps('acctproof', 'CopyAcctProof')],
         [AP('d1L', S_ALL, [1, 9], V_ALL, [1, 2, 9], 1, respell=True, extra_opt='wsonly=1', legacy=True),
          AP('d2L', [10, 6], [1, 9], [1, 5, 8], [1, 5], 2, kinds=['copy', 'add', 'remove', 'replace'], respell=True, extra_opt='wsonly=1', legacy=True, timeout=9000),
          AP('d1', S_ALL, [1, 8, 9, 10, 11], V_ALL, [1, 2, 9], 1, respell=True, extra_opt='wsonly=1'),
          AP('d2', [1, 2, 7, 10, 6], [1, 8, 9, 10], [1, 5, 8], [1, 5], 2, kinds=['copy', 'add', 'remove', 'replace'], respell=True,
             extra_opt='wsonly=1', timeout=9000),
          AP('d3', [9, 8], [1, 8, 9, 10], [5, 7], [5], 3, kinds=['add', 'copy'], timeout=9000),
-         P_apalache('acct0', 'CopyAcct', 'IndInv', init='Init', length=0), P_apalache('acct1', 'CopyAcct', 'IndInv', init='IndInit', length=1)],
+         P_apalache('acct0', 'CopyAcct', 'IndInv', init='Init', length=0), P_apalache('acct1', 'CopyAcct', 'IndInv', init='IndInit', length=1),
+         P_tlaps('acctproof', 'CopyAcctProof')],
         'for every successful behaviour ending in a copy the patch is re-run with limits total-1 (must stop with '
         '*AccumulatedCopySizeError and no document), total, total+1, total+1000 (must succeed with the same document), through '
         'the per-call option and through the package default; behaviours under fixed limits 7/12/20 are compared with the '
